@@ -25,6 +25,7 @@ Initially released in 2.10.0-rc.
 
 from __future__ import absolute_import
 
+import decimal
 import logging
 logger = logging.getLogger(__name__)
 
@@ -54,6 +55,7 @@ except ImportError:
 
 
 NON_NUMBER_TYPES = tuple({list, dict, six.text_type, six.binary_type})
+NUMBER_TYPES = six.integer_types + (float, decimal.Decimal)
 
 
 class YamlDocument(HierDictDocument):
@@ -135,16 +137,27 @@ class YamlDocument(HierDictDocument):
     def _ret(self, _, value):
         return value
 
-    def _ret_number(self, _, value):
+    def _ret_number(self, cls, value):
         if isinstance(value, NON_NUMBER_TYPES):
             raise ValidationError(value)
         if value in (True, False):
             return int(value)
+        if value is not None and not isinstance(value, NUMBER_TYPES):
+            # a native value of another kind (date, set, ...) is not a number
+            raise ValidationError(value)
+        if isinstance(value, float) and issubclass(cls, Integer):
+            # an integral float is that integer; any other float is not one
+            if value != value or value in (float('inf'), float('-inf')) \
+                                                      or value != int(value):
+                raise ValidationError(value)
+            return int(value)
         return value
 
-    def _ret_bool(self, _, value):
-        if value is None or value in (True, False):
-            return value
+    def _ret_bool(self, cls, value):
+        if value is None:
+            return None
+        if value in (True, False):
+            return bool(value)  # 0 and 1 are booleans here, not integers
         raise ValidationError(value)
 
     def create_in_document(self, ctx, in_string_encoding=None):
